@@ -19,6 +19,8 @@ def judge_expect(spec, outcomes):
         return None
     if o.status != 'OK':
         return f'expected success with image {spec["image_hex"]} but got {o.status}: {o.detail}'
+    if spec.get('status_only'):
+        return None             # run without a binary image (--no-binary): only acceptance is judged
     got = o.image.hex() if o.image is not None else None
     if got != spec['image_hex']:
         return f'image differs: expected {spec["image_hex"]} got {got}'
